@@ -21,6 +21,7 @@ import ReuseVerif.Lemmas.C02Copyright
 import ReuseVerif.Lemmas.C02Extract
 import ReuseVerif.Lemmas.C02Blocks
 import ReuseVerif.Lemmas.C02Window
+import ReuseVerif.Lemmas.C09LineEndings
 import ReuseVerif.Theorems.C12
 import ReuseVerif.Theorems.C20
 
@@ -764,16 +765,57 @@ theorem C02_file_of_text (parses : Text → Bool) (t : Text) (hcr : '\r' ∉ t)
   unfold infoOfFile
   rw [C02L.window_all _ hfit, C02L.decodedText_encode _ hcr]
 
-/-- `C02_file_exact` for a file with ignore blocks. -/
+/-- **Line-ending conventions.**  The same for the CRLF and the CR form of the text (`toCRLF`: every line feed written
+    as carriage return + line feed; `toCR`: as a lone carriage return): the decoder folds both back, so the file is
+    read as the LF text. -/
+theorem C02_file_of_text_line_endings (parses : Text → Bool) (t : Text) (hcr : '\r' ∉ t) (f : Text → Text)
+    (hf : f = id ∨ f = toCRLF ∨ f = toCR)
+    (hfit : (encodeUtf8 (f t)).length ≤ 4096 ∨ containsSnippet (encodeUtf8 (f t)) = true) :
+    infoOfFile parses (encodeUtf8 (f t)) = infoOfDecoded parses t := by
+  have hno : NoCR t := fun ch hch e => hcr (e ▸ hch)
+  have hfold : foldLineEndings (f t) = t := by
+    rcases hf with rfl | rfl | rfl
+    · exact C09L.fold_lf hno
+    · exact C09L.fold_crlf hno
+    · exact C09L.fold_cr hno
+  unfold infoOfFile
+  rw [C02L.window_all _ hfit]
+  unfold decodedText
+  rw [decodeUtf8_encodeUtf8, hfold]
+
+/-- **`C02_file_exact` in every line-ending convention** (LF, CRLF, CR). -/
+theorem C02_file_exact_line_endings (parses : Text → Bool) (ls : List InfoLine)
+    (hok : ∀ l ∈ ls, l.ok Generated.endRe = true)
+    (hparse : ∀ v ∈ (plantedInfo ls).lic, parses v = true)
+    (f : Text → Text) (hf : f = id ∨ f = toCRLF ∨ f = toCR)
+    (hfit : (encodeUtf8 (f (infoTextOf ls))).length ≤ 4096 ∨ containsSnippet (encodeUtf8 (f (infoTextOf ls))) = true) :
+    infoOfFile parses (encodeUtf8 (f (infoTextOf ls))) =
+      if (plantedInfo ls).lic.isEmpty && (plantedInfo ls).cpr.isEmpty then Extracted.empty else plantedInfo ls := by
+  rw [C02_file_of_text_line_endings parses _ (C02L.infoText_noCR ls hok) f hf hfit]
+  exact C02L.infoOfDecoded_of_extract parses _ _ (C02_extract_exact Generated.endRe C02_end_guarded ls hok) hparse
+
+/-- the hypotheses are satisfiable: the example text as a CRLF file -/
+example : infoOfFile (fun _ => true) (encodeUtf8 (toCRLF (infoTextOf (C02L.exampleLines.map (·.1))))) =
+    plantedInfo (C02L.exampleLines.map (·.1)) := by
+  rw [C02_file_exact_line_endings (fun _ => true) _ (by
+    intro l hl
+    obtain ⟨p, hp, rfl⟩ := List.mem_map.mp hl
+    exact C02L.infoLine_ok_of_syn _ p.1 p.2 (C02L.exampleLines_syn p hp)) (fun _ _ => rfl) toCRLF (.inr (.inl rfl))
+    (.inl (by decide +kernel))]
+  decide +kernel
+
+/-- `C02_file_exact` for a file with ignore blocks, in every line-ending convention. -/
 theorem C02_file_exact_with_blocks (parses : Text → Bool)
     (a0 : Text) (bs : List (Text × Text)) (o : Option Text) (hch : chunksOK a0 bs o = true)
     (ls : List InfoLine) (hvis : visibleText a0 bs = infoTextOf ls) (hok : ∀ l ∈ ls, l.ok Generated.endRe = true)
     (hparse : ∀ v ∈ (plantedInfo ls).lic, parses v = true)
     (hcr : '\r' ∉ blocksText a0 bs o)
-    (hfit : (encodeUtf8 (blocksText a0 bs o)).length ≤ 4096 ∨ containsSnippet (encodeUtf8 (blocksText a0 bs o)) = true) :
-    infoOfFile parses (encodeUtf8 (blocksText a0 bs o)) =
+    (f : Text → Text) (hf : f = id ∨ f = toCRLF ∨ f = toCR)
+    (hfit : (encodeUtf8 (f (blocksText a0 bs o))).length ≤ 4096 ∨
+      containsSnippet (encodeUtf8 (f (blocksText a0 bs o))) = true) :
+    infoOfFile parses (encodeUtf8 (f (blocksText a0 bs o))) =
       if (plantedInfo ls).lic.isEmpty && (plantedInfo ls).cpr.isEmpty then Extracted.empty else plantedInfo ls := by
-  rw [C02_file_of_text parses _ hcr hfit]
+  rw [C02_file_of_text_line_endings parses _ hcr f hf hfit]
   exact C02L.infoOfDecoded_of_extract parses _ _
     (C02_extract_exact_with_blocks Generated.endRe C02_end_guarded a0 bs o hch ls hvis hok) hparse
 
